@@ -371,4 +371,67 @@ theorem C04_toInt (tol v : Q) (up : Bool) :
       have := Rat.lt_floor_add_one v
       simpa [Rat.intCast_add] using this
 
+/-! ### CFF advance widths -/
+
+theorem otRound_intCast (k : Int) : otRound (k : Q) = k := by
+  unfold otRound
+  have h : ((k : Q) + 1 / 2).floor = ((1 / 2 : Q) + (k : Q)).floor := by rw [Rat.add_comm]
+  rw [h, Rat.floor_add_intCast]
+  have : (1 / 2 : Q).floor = 0 := by decide +kernel
+  omega
+
+theorem otRound_sub_intCast (w : Q) (n : Int) : otRound (w - (n : Q)) = otRound w - n := by
+  unfold otRound
+  have h : w - (n : Q) + 1 / 2 = (w + 1 / 2) + ((-n : Int) : Q) := by
+    simp only [Rat.intCast_neg]; grind
+  rw [h, Rat.floor_add_intCast]
+  omega
+
+/-- one glyph: reading back what `csWidth` / `privWidths` wrote gives the rounded source advance, for
+EVERY default/nominal pair (zero or not, from fontinfo or from the optimiser) and every width -/
+theorem readCffWidth_csWidth (d n : Int) (w : Q) :
+    readCffWidth (privWidths d n) (csWidth d n w) = otRound w := by
+  unfold csWidth
+  by_cases h : w = (d : Q)
+  · rw [if_pos h, h, otRound_intCast]
+    simp only [readCffWidth, privWidths]
+    by_cases hd : d = 0
+    · simp [hd]
+    · simp [hd]
+  · rw [if_neg h, otRound_intCast, otRound_sub_intCast]
+    simp only [readCffWidth, privWidths]
+    by_cases hn : n = 0
+    · simp [hn]
+    · simp [hn]; omega
+
+/-- **C04 CFF widths**: the advances a reader decodes from the 'CFF ' table (Private dict width operators
+as written by setupTable_CFF + the width operand of every charstring) are the rounded source advances,
+whatever pair `getDefaultAndNominalWidths` returned. -/
+theorem C04_cffWidths (d n : Int) (gs : List G) : holdsCffWidths gs (cffWidths d n gs) = true := by
+  simp only [holdsCffWidths, cffWidths, List.map_map, beq_iff_eq]
+  apply List.map_congr_left
+  intro g _
+  simp only [Function.comp, readCffWidth_csWidth]
+
+/-- … hence they are the advances of the hmtx table the model builds -/
+theorem C04_cffWidths_hmtx (d n : Int) (gs : List G) (r : List (Int × Int)) (h : hmtx gs = .ok r) :
+    holdsCffVsHmtx r (cffWidths d n gs) = true := by
+  have h1 := C04_cffWidths d n gs
+  have h2 := (C04_hmtx gs).1 r h
+  simp only [holdsHmtx, beq_iff_eq] at h2
+  simp only [holdsCffWidths, beq_iff_eq] at h1
+  simp only [holdsCffVsHmtx, beq_iff_eq, h1, h2, List.map_map]
+  apply List.map_congr_left
+  intro g _
+  rfl
+
+/-- the hypotheses are met non-trivially: zero-width glyphs dominate, so the optimiser's pair is
+(0, 533): defaultWidthX is NOT written, nominalWidthX is, two glyphs omit the operand -/
+example : cffWidths 0 533 [⟨"a", 0, 0, none, none⟩, ⟨"b", 600, 0, none, none⟩, ⟨"c", 0, 0, none, none⟩, ⟨"d", (1001 : Q) / 2, 0, none, none⟩]
+    = ⟨⟨none, some 533⟩, [none, some 67, none, some (-32)]⟩ := by decide +kernel
+
+/-- a Private dict that loses nominalWidthX when defaultWidthX is 0 does not satisfy the predicate -/
+example : holdsCffWidths [⟨"a", 0, 0, none, none⟩, ⟨"b", 600, 0, none, none⟩]
+    ⟨⟨none, none⟩, [none, some 67]⟩ = false := by decide +kernel
+
 end Ufo2ft.C04
